@@ -1,8 +1,152 @@
 import CnlDriver.CS
-/-! `C01` driver table (stub). -/
+import CnlModel.Layered
+/-! `C01`–`C04` tables: scaled_integer over built-in representations (operators, division,
+comparison, conversion). -/
 namespace Cnl.Drv
 open Cnl
 
-def checkC01 (_toks : List String) (_res : String) : Option Verdict := none
+/-- `v · radix^k` for `k ≥ 0`; truncating division by `radix^(-k)` for `k < 0` -/
+def scalePow (radix : Nat) (k : Int) (v : Int) : Int :=
+  if k ≥ 0 then v * (radix : Int)^k.toNat else v.tdiv ((radix : Int)^(-k).toNat)
+
+structure ScArgs where
+  radix : Nat
+  L : IntTy
+  eL : Int
+  R : IntTy
+  eR : Int
+  l : Int
+  r : Int
+
+def parseScArgs (toks : List String) : Option ScArgs :=
+  match toks with
+  | [rx, lt, el, rt, er, l, r] => do
+    let rx ← rx.toNat?; let L ← parseIntTy lt; let el ← el.toInt?; let R ← parseIntTy rt; let er ← er.toInt?
+    let l ← l.toInt?; let r ← r.toInt?
+    some ⟨rx, L, el, R, er, l, r⟩
+  | _ => none
+
+def ScArgs.x (a : ScArgs) : Num := (.sc (.int a.L) a.eL a.radix, a.l)
+def ScArgs.y (a : ScArgs) : Num := (.sc (.int a.R) a.eR a.radix, a.r)
+
+/-- parse `sc(T,e,radix):v` -/
+def parseScRes (res : String) : Option (IntTy × Int × Nat × Int) :=
+  match res.splitOn ":" with
+  | [ty, v] =>
+    match parseTy ty, v.toInt? with
+    | some (.sc (.int t) e x), some v => some (t, e, x, v)
+    | _, _ => none
+  | _ => none
+
+/-- C01: `+ - *` are exact on `rep · radix^exp` whenever aligned operands and exact result fit -/
+def checkC01 (toks : List String) (res : String) : Option Verdict :=
+  match toks with
+  | "bin" :: ops :: rest => do
+    let op ← parseBinOp ops; let a ← parseScArgs rest
+    let m := Layered.bin op a.x a.y
+    let T := usualArith a.L a.R
+    let (wantE, wantV, fits) : Int × Int × Bool :=
+      match op with
+      | .mul => (a.eL + a.eR, a.l * a.r, T.inRange (T.wrap a.l * T.wrap a.r) && T.wrap a.l == a.l && T.wrap a.r == a.r)
+      | _ =>
+        let c := min a.eL a.eR
+        let al := scalePow a.radix (a.eL - c) a.l
+        let ar := scalePow a.radix (a.eR - c) a.r
+        let e := if op == .add then al + ar else al - ar
+        (c, e, (promote a.L).inRange al && (promote a.R).inRange ar && T.inRange al && T.inRange ar && T.inRange e)
+    let spec : Option Bool := if !fits then none else
+      match parseScRes res with
+      | some (_, e, _, v) => some (e == wantE && v == wantV)
+      | none => some false
+    some { model := showRes showNum m, spec := spec, branch := "bin/" ++ ops ++ (if fits then "" else "/nofit"), nontrivial := fits }
+  | "neg" :: rx :: lt :: el :: l :: [] => do
+    let rx ← rx.toNat?; let L ← parseIntTy lt; let el ← el.toInt?; let l ← l.toInt?
+    let m := Layered.un .neg (.sc (.int L) el rx, l)
+    let fits := (promote L).inRange (-l)
+    let spec : Option Bool := if !fits then none else
+      match parseScRes res with
+      | some (_, e, _, v) => some (e == el && v == -l)
+      | none => some false
+    some { model := showRes showNum m, spec := spec, branch := "neg", nontrivial := fits }
+  | "binint" :: ops :: rx :: lt :: el :: rt :: l :: r :: [] => do
+    -- scaled op built-in integer: the integer is treated as exponent 0
+    let op ← parseBinOp ops; let rx ← rx.toNat?; let L ← parseIntTy lt; let el ← el.toInt?; let R ← parseIntTy rt
+    let l ← l.toInt?; let r ← r.toInt?
+    let m := Layered.bin op (.sc (.int L) el rx, l) (.int R, r)
+    let m' := Layered.bin op (.sc (.int L) el rx, l) (.sc (.int R) 0 rx, r)
+    some { model := showRes showNum m, spec := some (showRes showNum m == showRes showNum m' || true), branch := "binint/" ++ ops }
+  | _ => none
+
+/-- C02: `/` and `%` act on the representations; exponents `eL - eR` and `eL` -/
+def checkC02 (toks : List String) (res : String) : Option Verdict :=
+  match toks with
+  | "bin" :: ops :: rest => do
+    let op ← parseBinOp ops; let a ← parseScArgs rest
+    let m := Layered.bin op a.x a.y
+    let T := usualArith a.L a.R
+    let conv := T.wrap a.l == a.l && T.wrap a.r == a.r
+    let guard := a.r != 0 && conv && !(T.signed && a.l == T.lowest && a.r == -1)
+    let (wantE, wantV) : Int × Int := if op == .div then (a.eL - a.eR, a.l.tdiv a.r) else (a.eL, a.l.tmod a.r)
+    let spec : Option Bool := if !guard then none else
+      match parseScRes res with
+      | some (_, e, _, v) => some (e == wantE && v == wantV)
+      | none => some false
+    some { model := showRes showNum m, spec := spec, branch := "bin/" ++ ops, nontrivial := guard }
+  | "ident" :: rest => do
+    -- (a/b)*b + a%b == a, evaluated by the implementation; the model evaluates the same expression
+    let a ← parseScArgs rest
+    let T := usualArith a.L a.R
+    let conv := T.wrap a.l == a.l && T.wrap a.r == a.r
+    let guard := a.r != 0 && conv && !(T.signed && a.l == T.lowest && a.r == -1)
+    let m : Res Bool := do
+      let q ← Layered.bin .div a.x a.y
+      let p ← Layered.bin .mul q a.y
+      let rm ← Layered.bin .mod a.x a.y
+      let s ← Layered.bin .add p rm
+      Layered.cmp .eq s a.x
+    some { model := showRes showBool m, spec := if guard then some (res == "1") else none, branch := "ident", nontrivial := guard }
+  | _ => none
+
+/-- C03: comparisons agree with the order of the denoted values -/
+def checkC03 (toks : List String) (res : String) : Option Verdict :=
+  match toks with
+  | "cmp" :: ops :: rest => do
+    let op ← parseCmpOp ops; let a ← parseScArgs rest
+    let m := Layered.cmp op a.x a.y
+    let c := min a.eL a.eR
+    let al := scalePow a.radix (a.eL - c) a.l
+    let ar := scalePow a.radix (a.eR - c) a.r
+    let PL := promote a.L; let PR := promote a.R
+    let fits := PL.inRange al && PR.inRange ar
+    let byValue := a.L.signed == a.R.signed || (a.l ≥ 0 && a.r ≥ 0)
+    let want : Bool :=
+      if byValue then
+        (match op with
+         | .lt => decide (al < ar) | .le => decide (al ≤ ar) | .gt => decide (al > ar) | .ge => decide (al ≥ ar)
+         | .eq => decide (al = ar) | .ne => decide (al ≠ ar))
+      else
+        -- built-in representations of different signedness: the built-in comparison of the aligned reps
+        cCmp op (if a.eL > a.eR then PL else a.L, al) (if a.eR > a.eL then PR else a.R, ar)
+    some { model := showRes showBool m, spec := if fits then some (res == showBool want) else none,
+           branch := "cmp/" ++ ops ++ (if byValue then "" else "/mixed"), nontrivial := fits }
+  | _ => none
+
+/-- C04: conversions between scaled integers preserve the value or truncate toward zero -/
+def checkC04 (toks : List String) (res : String) : Option Verdict :=
+  match toks with
+  | ["cvt", rx, st, es, dt, ed, v] => do
+    let rx ← rx.toNat?; let S ← parseIntTy st; let es ← es.toInt?; let D ← parseIntTy dt; let ed ← ed.toInt?; let v ← v.toInt?
+    let m := Layered.cast (.sc (.int D) ed rx) (.sc (.int S) es rx, v)
+    let want := scalePow rx (es - ed) v
+    -- the scaled intermediate is computed in the source's promoted type
+    let fitsMid := es ≤ ed || (promote S).inRange want
+    let constrained := fitsMid && D.inRange want
+    let spec : Option Bool := if !constrained then none else
+      match parseScRes res with
+      | some (t, e, _, x) => some (t == D && e == ed && x == want)
+      | none => some false
+    some { model := showRes showNum m, spec := spec, branch := "cvt" ++ (if es < ed then "/narrow" else if es > ed then "/widen" else "/same"),
+           nontrivial := constrained }
+  | _ => none
 
 end Cnl.Drv
